@@ -43,12 +43,12 @@ type travModel struct {
 	cc    map[*ssa.BasicBlock]*ssa.Phi
 	ccOff map[*ssa.BasicBlock]int64
 	LT    int64
-	GT   int64
+	GT    int64
 	// results
 	okCmp, okLvl, okEff bool
-	nTests             int
-	probe              bool // first pass: only collect the index offset, report nothing
-	cIdx               *int64
+	nTests              int
+	probe               bool // first pass: only collect the index offset, report nothing
+	cIdx                *int64
 }
 
 func fingersOf(n *ir.Term) *ir.Term {
@@ -780,4 +780,3 @@ func (m *travModel) segment(p *ir.Path, list, head, pathT *ir.Term, recordsPath 
 		m.failEff(lastPos(p), "the traversal does not return")
 	}
 }
-
